@@ -376,7 +376,7 @@ func randStatus(rng *rand.Rand) int {
 
 var hostAlphabet = []string{
 	"[c=ff0000]", "[C=00FF7f]", "[\\c]", "[b]", "[\\b]", "[u]", "[\\U]", "[c=", "[c", "[", "]", "[c=ff00]", "[c=gggggg]", "[c]", "[/c]", "[\\C]", "[c=[c=ff0000]",
-	"[cſff0000]", "[cKx]", "[c\nff0000]", "[c]]", "[c[ff0000]", "[c&ff0000]", "[c<ff0000]", "[c'ff0000]",
+	"[\\c=", "[\\C ", "[\\c=<", "[c]<", "[cſff0000]", "[cKx]", "[c\nff0000]", "[c]]", "[c[ff0000]", "[c&ff0000]", "[c<ff0000]", "[c'ff0000]",
 	"<", ">", "&", "\"", "'", "<script>", "</span>", "<span style=\"color:#ff0000;\">", "&lt;", "&amp;", "&#39;", "&#34", "&", ";",
 	"a", "Z", "0", "_", " ", "  ", "\t", "\n", " ", "　", "\u0085", "é", "ß", "ſ", "K", "日本", "😀", "=", "#", "\\", "/", "c", "b", "u", "ff0000", "Swat4 Server",
 }
@@ -621,6 +621,16 @@ func gen(rng *rand.Rand, tier core.Tier, emit core.Emit) {
 	for _, s := range hostAlphabet {
 		emit("html", hx(s))
 		emit("clean", hx(s))
+	}
+	// hostnames that one renderer empties and the other does not (the two recognise different tag shapes): whatever is left
+	// in either member must still be inert / free of codes, through the API as well
+	for _, s := range []string{"[\\c=<img src=x onerror=alert(1)>]", "[\\C <script>alert(1)</script>]", "[c]<script>alert(1)</script>]", "[b][\\c=<b>&\"']",
+		"[\\c=]", "[\\c=x]", "[c]]", "[c]x]", "[\\c =<]", "[u][\\C=<svg/onload=1>][\\u]", "[c=<>]", "[c <>]x", "[/c=<i>]"} {
+		emit("html", hx(s))
+		emit("clean", hx(s))
+		st := fmt.Sprintf("p:1.1.1.1:10480:%d:10481:%s", randStatus(rng)|int(ds.Details), hx(s))
+		emit("view", st, hx("1.1.1.1:10480"))
+		emit("add-ip", st, hx("1.1.1.1"), "10480")
 	}
 	for depth := 1; depth <= 30; depth++ {
 		for k := 0; k < 3*scale; k++ {
